@@ -298,7 +298,7 @@ def eof_table(spec):
     return 'static const int vp_eofret[] = {%s};' % ','.join(str(v) for v in exp)
 
 
-def e1_harness(g, cfg, spec, n, maxnul, nodefault=False, witness=None, check_post=True):
+def e1_harness(g, cfg, spec, n, maxnul, nodefault=False, witness=None, check_post=True, source='buffer'):
     """First-token step harness for input length n."""
     H = [common_head(g, cfg, spec, max(n, 1), nodefault)]
     H.append(action_table(spec))
@@ -307,7 +307,8 @@ def e1_harness(g, cfg, spec, n, maxnul, nodefault=False, witness=None, check_pos
     H.append('#define VP_MAXNUL %d' % maxnul)
     H.append('#define VP_7BIT %d' % (1 if cfg.seven_bit or spec.csize == 128 else 0))
     H.append('#define VP_NODEFAULT %d' % (1 if nodefault else 0))
-    H.append('#define VP_CHECK_POST %d' % (1 if check_post else 0))
+    H.append('#define VP_CHECK_POST %d' % (1 if (check_post and source == 'buffer') else 0))
+    H.append('#define VP_SOURCE_%s 1' % source.upper())
     H.append('#define VP_ARRAY %d' % (1 if is_array(g) else 0))
     if witness:
         H.append('#define VP_WITNESS_RULE %d' % witness)
@@ -343,8 +344,18 @@ int main(void) {
   vp_expect_fatal = (VP_NODEFAULT && VP_N > 0 && rr == VP_DEFAULT_RULE);
 
   VP_INIT_SCANNER();
+#if defined(VP_SOURCE_BYTES)
+  yybuffer b = VP_SCAN_BYTES(vp_buf, VP_N);
+  VP_ASSERT(b != 0, "yy_scan_bytes");
+  for (int i = 0; i < VP_N; i++) vp_buf[i] = '#';      /* the scanner works on a private copy */
+#elif defined(VP_SOURCE_STRING)
+  yybuffer b = VP_SCAN_STRING(vp_buf);
+  VP_ASSERT(b != 0, "yy_scan_string");
+  for (int i = 0; i < VP_N; i++) vp_buf[i] = '#';
+#else
   yybuffer b = VP_SCAN_BUFFER(vp_buf, VP_N + 2);
   VP_ASSERT(b != 0, "yy_scan_buffer accepts a doubly NUL-terminated buffer");
+#endif
   VP_BEGIN(vpi_sc);
   VP_SETBOL(vpi_bol);
   int t = VP_LEX();
@@ -365,10 +376,12 @@ int main(void) {
     VP_ASSERT(tl == tot, "yyleng is the longest match length");
   }
   VP_ASSERT(tl >= 0 && tl <= VP_N, "yyleng within input");
+#if defined(VP_SOURCE_BUFFER)
 #if VP_ARRAY
   VP_ASSERT(VP_TEXTPTR == vp_buf, "token starts at the scan position");
 #else
   VP_ASSERT(tx == vp_buf, "yytext points at the token start");
+#endif
 #endif
   for (int i = 0; i < VP_N; i++)
     if (i < tl) VP_ASSERT((unsigned char)tx[i] == vpi_in[i], "yytext bytes");
@@ -566,6 +579,8 @@ def e3_harness(g, cfg, spec, m, bs, tokens=2, source='yyinput_macro', witness=Fa
     H.append('#define VP_ARRAY %d' % (1 if is_array(g) else 0))
     if witness:
         H.append('#define VP_WITNESS 1')
+    if isinstance(witness, str):
+        H.append('#define VP_PROBE ' + witness)
     H.append(r'''
 unsigned char vpi_in[VP_M > 0 ? VP_M : 1];
 unsigned char vpi_chunk[VP_M + 2];
@@ -622,6 +637,9 @@ int main(void) {
       break;
     }
     const char *tx = VP_TEXT; int tl = VP_LENG;
+#ifdef VP_PROBE
+    VP_ASSERT(!(t == 0 && (VP_PROBE)), "WITNESS: probe");
+#endif
     VP_ASSERT(tk == vp_actid[rr], "token rule independent of delivery");
     if (vp_has_trail(rr)) VP_ASSERT(vp_split_ok(rr, vpi_in + off, tl, tot), "trailing context split");
     else VP_ASSERT(tl == tot, "token length independent of delivery");
@@ -634,6 +652,290 @@ int main(void) {
   }
 #ifdef VP_WITNESS
   VP_ASSERT(!(refilled_tokens > 0 && off == VP_M), "WITNESS: a token spanning two reads was delivered and the stream was consumed");
+#endif
+  return 0;
+}
+''')
+    return '\n'.join(H)
+
+
+# ---------------------------------------------------------------------------
+# G1: yy_get_next_buffer() as a unit, from an arbitrary valid buffer state
+
+def gnb_harness(g, cfg, spec, cap, m, witness=False):
+    """White box (non-reentrant / reentrant C skeleton): arbitrary buffer of
+    capacity bs <= cap with fill n, partial token starting at ts, m more
+    source bytes, symbolic read size; one call of yy_get_next_buffer()."""
+    pre = ('static int vp_read(char *buf, int max_size);\n'
+           '#define YY_INPUT(buf, result, max_size) do { (result) = vp_read((buf), (int)(max_size)); } while (0)')
+    h = common_head(g, cfg, spec, 1)
+    marker = '#include "%s"' % os.path.basename(g.cpath)
+    h = h.replace(marker, pre + '\n' + marker)
+    h = h.replace(ALLOC, r'''
+/* in-place allocator for the one buffer under test: growth stays inside the
+ * static arena of VP_CAP+2 bytes; larger requests are outside the bound */
+static int vp_realloc_calls; static size_t vp_last_realloc;
+static char vp_mem[VP_ARENA];
+void *yyalloc(VP_SIZE_T n VP_ALLOC_EXTRA) { void *p = malloc(n); VP_ASSUME(p != 0); return p; }
+void *yyrealloc(void *q, VP_SIZE_T n VP_ALLOC_EXTRA) {
+  VP_ASSERT(q == (void *)vp_mem, "only the character buffer is regrown");
+  vp_realloc_calls++; vp_last_realloc = n;
+  VP_ASSUME(n <= VP_ARENA);            /* larger: outside the bound */
+  return q;
+}
+void yyfree(void *p VP_ALLOC_EXTRA) { }
+''')
+    H = ['#define VP_CAP %d' % cap, '#define VP_ARENA %d' % (4 * cap + 8), h]
+    H.append('#define VP_M %d' % m)
+    H.append('#define VP_ARRAY %d' % (1 if is_array(g) else 0))
+    if witness:
+        H.append('#define VP_WITNESS 1')
+    H.append(r'''
+unsigned char vpi_buf[VP_CAP], vpi_src[VP_M > 0 ? VP_M : 1];
+int vpi_bs, vpi_n, vpi_ts, vpi_k, vpi_status, vpi_ours, vpi_avail;
+static int vp_fake_file, vp_reads, vp_req, vp_got;
+static char *vp_req_buf;
+static struct yy_buffer_state vp_bs;
+static yybuffer vp_stack[1];
+
+static int vp_read(char *buf, int max_size) {
+  vp_reads++; vp_req = max_size; vp_req_buf = buf;
+  VP_ASSERT(max_size >= 1, "read request asks for at least one byte");
+  if (vpi_avail == 0) return 0;
+  VP_ASSUME(vpi_k >= 1 && vpi_k <= vpi_avail && vpi_k <= max_size);
+  for (int i = 0; i < VP_M; i++) if (i < vpi_k) buf[i] = (char)vpi_src[i];
+  vp_got = vpi_k;
+  return vpi_k;
+}
+
+int main(void) {
+  VP_DECL_SCANNER
+#ifdef REPLAY
+#include "vp_replay_set.inc"
+#else
+  for (int i = 0; i < VP_CAP; i++) vpi_buf[i] = nondet_uchar();
+  for (int i = 0; i < VP_M; i++) vpi_src[i] = nondet_uchar();
+  vpi_bs = nondet_int(); vpi_n = nondet_int(); vpi_ts = nondet_int(); vpi_k = nondet_int();
+  vpi_status = nondet_int(); vpi_ours = nondet_int(); vpi_avail = nondet_int();
+#endif
+  VP_ASSUME(vpi_bs >= 1 && vpi_bs <= VP_CAP);
+  VP_ASSUME(vpi_n >= 0 && vpi_n <= vpi_bs);
+  VP_ASSUME(vpi_ts >= 0 && vpi_ts <= vpi_n);
+  VP_ASSUME(vpi_status == YY_BUFFER_NORMAL || vpi_status == YY_BUFFER_EOF_PENDING || vpi_status == YY_BUFFER_NEW);
+  VP_ASSUME(vpi_ours == 0 || vpi_ours == 1);
+  VP_ASSUME(vpi_avail >= 0 && vpi_avail <= VP_M);
+  VP_INIT_SCANNER();
+  for (int i = 0; i < VP_CAP; i++) if (i < vpi_n) vp_mem[i] = (char)vpi_buf[i];
+  vp_mem[vpi_n] = 0; vp_mem[vpi_n + 1] = 0;
+  vp_bs.yy_input_file = (FILE *)&vp_fake_file;
+  vp_bs.yy_ch_buf = vp_mem; vp_bs.yy_buf_pos = vp_mem + vpi_ts;
+  vp_bs.yy_buf_size = vpi_bs; vp_bs.yy_n_chars = vpi_n;
+  vp_bs.yy_is_our_buffer = vpi_ours; vp_bs.yy_fill_buffer = 1; vp_bs.yy_buffer_status = vpi_status;
+  vp_stack[0] = &vp_bs;
+  VP_G(yy_buffer_stack) = vp_stack; VP_G(yy_buffer_stack_top) = 0; VP_G(yy_buffer_stack_max) = 1;
+  VP_G(yy_n_chars) = vpi_n; VP_G(yy_init) = 1; VP_G(yy_start) = 1;
+  yyin = (FILE *)&vp_fake_file;
+  /* precondition of the call: the scanner has just consumed the first
+   * end-of-buffer character behind the partial token */
+  VP_TEXTPTR = vp_mem + vpi_ts;
+  VP_G(yy_c_buf_p) = vp_mem + vpi_n + 1;
+  VP_G(yy_hold_char) = 0;
+  int pending = vpi_n - vpi_ts;                   /* bytes of the partial token */
+  int room_needed = pending + 1;                  /* at least one more byte */
+  /* user-owned buffer (yy_scan_buffer) that cannot hold one more byte: documented fatal error */
+  vp_expect_fatal = (!vpi_ours && vpi_status != YY_BUFFER_EOF_PENDING && vpi_bs - pending - 1 <= 0);
+
+  int ret = yy_get_next_buffer(VP_A0);
+
+  int got = vp_got;
+  int n2 = pending + got;
+  if (vpi_status == YY_BUFFER_EOF_PENDING) VP_ASSERT(vp_reads == 0, "no read after end of input was seen");
+  else VP_ASSERT(vp_reads == 1, "exactly one read request per refill");
+  if (vp_reads) {
+    VP_ASSERT(vp_req_buf == vp_bs.yy_ch_buf + pending, "new input is placed right behind the partial token");
+    VP_ASSERT(pending + vp_req + 2 <= vp_bs.yy_buf_size + 2, "request leaves room for the two end-of-buffer characters");
+  }
+  VP_ASSERT(vp_bs.yy_ch_buf == vp_mem, "buffer memory");
+  for (int i = 0; i < VP_CAP; i++) if (i < pending) VP_ASSERT((unsigned char)vp_mem[i] == vpi_buf[vpi_ts + i], "partial token moved to the buffer start unchanged");
+  for (int i = 0; i < VP_M; i++) if (i < got) VP_ASSERT((unsigned char)vp_mem[pending + i] == vpi_src[i], "bytes read follow the partial token");
+  VP_ASSERT(vp_mem[n2] == 0 && vp_mem[n2 + 1] == 0, "two end-of-buffer characters terminate the text");
+  VP_ASSERT(VP_G(yy_n_chars) == n2, "character count");
+  VP_ASSERT(VP_TEXTPTR == vp_mem, "token start reset to the buffer start");
+  VP_ASSERT(n2 <= vp_bs.yy_buf_size, "text fits the recorded buffer size");
+  if (got > 0) VP_ASSERT(ret == EOB_ACT_CONTINUE_SCAN, "input was read: continue scanning");
+  else if (pending == 0) VP_ASSERT(ret == EOB_ACT_END_OF_FILE, "no input and no pending text: end of file");
+  else {
+    VP_ASSERT(ret == EOB_ACT_LAST_MATCH, "no input but pending text: match it first");
+    VP_ASSERT(vp_bs.yy_buffer_status == YY_BUFFER_EOF_PENDING, "end of input remembered");
+  }
+  if (vp_realloc_calls) {
+    VP_ASSERT(vpi_ours, "a buffer the scanner does not own is never regrown");
+    VP_ASSERT(vp_last_realloc >= (size_t)vp_bs.yy_buf_size + 2, "regrown block holds the recorded size plus two end-of-buffer characters");
+  }
+#ifdef VP_WITNESS
+  VP_ASSERT(!(vp_realloc_calls > 0 && got > 0 && pending > 0), "WITNESS: refill with growth and a partial token");
+#endif
+  return 0;
+}
+''')
+    return '\n'.join(H)
+
+
+# ---------------------------------------------------------------------------
+# E3w: one yylex() step from an arbitrary valid buffer state (inductive step)
+
+def e3w_harness(g, cfg, spec, bs, m, maxnul=1, witness=False, interactive_check=False):
+    pre = ('static int vp_read(char *buf, int max_size);\n'
+           '#define YY_INPUT(buf, result, max_size) do { (result) = vp_read((buf), (int)(max_size)); } while (0)')
+    nmax = bs + m
+    h = common_head(g, cfg, spec, nmax)
+    marker = '#include "%s"' % os.path.basename(g.cpath)
+    h = h.replace(marker, pre + '\n' + marker)
+    h = h.replace(ALLOC, r'''
+static int vp_realloc_calls;
+static int vp_fake_file;
+static char vp_mem[VP_ARENA];
+#ifndef REPLAY
+/* the input file is never touched by the scanner except through YY_INPUT
+ * (the harness routine); yy_init_buffer() asks whether it is a terminal */
+int isatty(int fd) { return 0; }
+int fileno(FILE *f) { return 0; }
+#define VP_FILE ((FILE *)&vp_fake_file)
+#else
+#define VP_FILE stdin
+#endif
+void *yyalloc(VP_SIZE_T n VP_ALLOC_EXTRA) { void *p = malloc(n); VP_ASSUME(p != 0); return p; }
+void *yyrealloc(void *q, VP_SIZE_T n VP_ALLOC_EXTRA) {
+  VP_ASSERT(q == (void *)vp_mem, "only the character buffer is regrown");
+  vp_realloc_calls++;
+  VP_ASSUME(n <= VP_ARENA);            /* larger: outside the bound */
+  return q;
+}
+void yyfree(void *p VP_ALLOC_EXTRA) { }
+''')
+    H = ['#define VP_BS %d' % bs, '#define VP_ARENA %d' % (4 * (bs + m) + 8), h]
+    H.append(action_table(spec))
+    H.append(eof_table(spec))
+    H.append('#define VP_M %d' % m)
+    H.append('#define VP_L %d' % nmax)
+    H.append('#define VP_MAXNUL %d' % maxnul)
+    H.append('#define VP_7BIT %d' % (1 if cfg.seven_bit or spec.csize == 128 else 0))
+    H.append('#define VP_ARRAY %d' % (1 if is_array(g) else 0))
+    H.append('#define VP_INTERACTIVE_CHECK %d' % (1 if interactive_check else 0))
+    if witness:
+        H.append('#define VP_WITNESS 1')
+    H.append(r'''
+unsigned char vpi_buf[VP_BS], vpi_src[VP_M > 0 ? VP_M : 1], vpi_chunk[VP_M + 1];
+int vpi_n, vpi_p, vpi_status, vpi_avail, vpi_sc, vpi_bol;
+static int vp_reads, vp_pos, vp_eofs;
+static struct yy_buffer_state vp_bs;
+static yybuffer vp_stack[1];
+static unsigned char vp_stream[VP_L > 0 ? VP_L : 1];
+
+static int vp_read(char *buf, int max_size) {
+  VP_ASSERT(max_size >= 1, "read request asks for at least one byte");
+  VP_ASSERT(vpi_status != YY_BUFFER_EOF_PENDING, "no read after end of input was seen");
+  int avail = vpi_avail - vp_pos;
+  if (avail <= 0) { vp_eofs++; return 0; }
+  VP_ASSERT(vp_reads <= VP_M, "bounded number of reads");
+  int k = vpi_chunk[vp_reads <= VP_M ? vp_reads : VP_M];
+  vp_reads++;
+  VP_ASSUME(k >= 1 && k <= avail && k <= max_size);
+  for (int i = 0; i < VP_M; i++) if (i < k) buf[i] = (char)vpi_src[vp_pos + i];
+  vp_pos += k;
+  return k;
+}
+
+int main(void) {
+  VP_DECL_SCANNER
+#ifdef REPLAY
+#include "vp_replay_set.inc"
+#else
+  for (int i = 0; i < VP_BS; i++) vpi_buf[i] = nondet_uchar();
+  for (int i = 0; i < VP_M; i++) vpi_src[i] = nondet_uchar();
+  for (int i = 0; i < VP_M + 1; i++) vpi_chunk[i] = nondet_uchar();
+  vpi_n = nondet_int(); vpi_p = nondet_int(); vpi_status = nondet_int(); vpi_avail = nondet_int();
+  vpi_sc = nondet_int(); vpi_bol = nondet_int();
+#endif
+  VP_ASSUME(vpi_n >= 0 && vpi_n <= VP_BS);
+  VP_ASSUME(vpi_p >= 0 && vpi_p <= vpi_n);
+  VP_ASSUME(vpi_status == YY_BUFFER_NORMAL || vpi_status == YY_BUFFER_EOF_PENDING || vpi_status == YY_BUFFER_NEW);
+  VP_ASSUME(vpi_status != YY_BUFFER_NEW || vpi_n == 0);            /* a flushed buffer is empty */
+  VP_ASSUME(vpi_avail >= 0 && vpi_avail <= VP_M);
+  VP_ASSUME(vpi_status != YY_BUFFER_EOF_PENDING || vpi_avail == 0); /* source already reported end of input */
+  VP_ASSUME(vpi_sc >= 0 && vpi_sc < VP_NSC);
+  VP_ASSUME(vpi_bol == 0 || vpi_bol == 1);
+  /* logical stream: unread buffer text followed by the unread source */
+  int len = 0, nuls = 0;
+  for (int i = 0; i < VP_BS; i++) if (i >= vpi_p && i < vpi_n) vp_stream[len++] = vpi_buf[i];
+  for (int i = 0; i < VP_M; i++) if (i < vpi_avail) vp_stream[len++] = vpi_src[i];
+  for (int i = 0; i < VP_L; i++) if (i < len) {
+    if (vp_stream[i] == 0) nuls++;
+#if VP_7BIT
+    VP_ASSUME(vp_stream[i] < 128);
+#endif
+  }
+  VP_ASSUME(nuls <= VP_MAXNUL);
+  VP_INIT_SCANNER();
+  for (int i = 0; i < VP_BS; i++) if (i < vpi_n) vp_mem[i] = (char)vpi_buf[i];
+  vp_mem[vpi_n] = 0; vp_mem[vpi_n + 1] = 0;
+  vp_bs.yy_input_file = VP_FILE;
+  vp_bs.yy_ch_buf = vp_mem; vp_bs.yy_buf_pos = vp_mem + vpi_p;
+  vp_bs.yy_buf_size = VP_BS; vp_bs.yy_n_chars = vpi_n;
+  vp_bs.yy_is_our_buffer = 1; vp_bs.yy_fill_buffer = 1; vp_bs.yy_buffer_status = vpi_status;
+  vp_bs.yyatbol = vpi_bol;
+  vp_stack[0] = &vp_bs;
+  VP_G(yy_buffer_stack) = vp_stack; VP_G(yy_buffer_stack_top) = 0; VP_G(yy_buffer_stack_max) = 1;
+  VP_G(yy_n_chars) = vpi_n; VP_G(yy_init) = 1;
+  yyin = VP_FILE; yyout = VP_FILE;
+  VP_BEGIN(vpi_sc);
+  VP_TEXTPTR = vp_mem + vpi_p;
+  VP_G(yy_c_buf_p) = vp_mem + vpi_p;
+  VP_G(yy_hold_char) = vp_mem[vpi_p];
+
+  int tot = 0;
+  int rr = vp_first_token(vp_stream, len, vpi_sc, vpi_bol, &tot);
+  vp_expect_fatal = 0;
+  int tk = VP_LEX();
+  if (len == 0) {
+    VP_ASSERT(tk == vp_eofret[vpi_sc], "end of input: EOF action of the current start condition");
+    return 0;
+  }
+  const char *tx = VP_TEXT; int tl = VP_LENG;
+  VP_ASSERT(tk == vp_actid[rr], "token rule independent of buffer state and read schedule");
+  if (vp_has_trail(rr)) VP_ASSERT(vp_split_ok(rr, vp_stream, tl, tot), "trailing context split");
+  else VP_ASSERT(tl == tot, "token length independent of buffer state and read schedule");
+  VP_ASSERT(tl >= 1 && tl <= len, "token within the stream");
+  for (int i = 0; i < VP_L; i++) if (i < tl) VP_ASSERT((unsigned char)tx[i] == vp_stream[i], "token text");
+  VP_ASSERT(tx[tl] == 0, "yytext terminated");
+  /* representation invariant after the step: the unread text in the buffer
+   * followed by the unread source is exactly the rest of the stream */
+  char *cb = VP_G(yy_c_buf_p);
+  int n2 = VP_G(yy_n_chars);
+  int at = (int)(cb - vp_bs.yy_ch_buf);
+  VP_ASSERT(vp_bs.yy_ch_buf == vp_mem, "buffer memory");
+  VP_ASSERT(at >= 0 && at <= n2 && n2 <= vp_bs.yy_buf_size, "position within text within buffer");
+  VP_ASSERT(vp_mem[n2] == 0 && vp_mem[n2 + 1] == 0, "end-of-buffer characters in place");
+  VP_ASSERT((n2 - at) + (vpi_avail - vp_pos) == len - tl, "no input lost or duplicated");
+  for (int i = 0; i < VP_L; i++) if (i < n2 - at) {
+    unsigned char have = (i == 0) ? (unsigned char)VP_G(yy_hold_char) : (unsigned char)vp_mem[at + i];
+    VP_ASSERT(have == vp_stream[tl + i], "unread buffer text is the continuation of the stream");
+  }
+#if VP_INTERACTIVE_CHECK
+  /* interactive scanner: no request beyond the first point at which no longer match is possible */
+  {
+    vp_state s; vp_init(&s); int need = 0, stop = 0;
+    for (int i = 0; i < VP_L; i++) if (i < len && !stop) {
+      vp_step(&s, i == 0, vp_stream[i], vpi_sc, vpi_bol);
+      need = i + 1;
+      if (!vp_has_out(&s)) stop = 1;
+    }
+    int inbuf = vpi_n - vpi_p;
+    VP_ASSERT(stop == 0 || vp_pos <= (need > inbuf ? need - inbuf : 0), "interactive scanner does not read beyond the point where no longer match is possible");
+  }
+#endif
+#ifdef VP_WITNESS
+  VP_ASSERT(!(vp_reads >= 1 && vpi_p < vpi_n && tl > vpi_n - vpi_p), "WITNESS: token straddles a refill");
 #endif
   return 0;
 }
